@@ -42,8 +42,8 @@ ASSUME_CORE = [
     'Parser and Parameters constructors, tex2txt.get_packages, module '
     'loading (utils.get_module_handler, Parser.init_package) are assumed to '
     'establish ParserInv / MacInv; user extension modules are outside',
-    'multi-language mode (get_txt_pos_ml) is covered by separate lemmas, '
-    'the composition lemma of tex2txt is proved for multi_language=False',
+    'multi-language mode: get_txt_pos_ml and the lifted tail of tex2txt are '
+    'proved in C01 / C12 (separate contract modules)',
     'a token attribute environ read on a MathBeginToken is an EquEnv object '
     'satisfying MacInv',
 ]
